@@ -265,6 +265,12 @@ Fixpoint c08_scan (c : scfg) (prev : list snap_entry) (h : list round) : bool :=
            let y := d_yiaddr (po_msg p) in
            (if (typ p =? 2) && is_none bound then negb (foreign_answer r (d_chaddr m) y) else true) &&
            (if typ p =? 5 then negb (foreign_answer r (d_chaddr m) y) else true) &&
+           (* only an answer whose sender address is the probed address counts: a REQUEST by the holder of x for x is refused
+              (NAK) on account of ARP only if a foreign host did answer for x in this round *)
+           (if (typ p =? 6) && (o_msgtype o =? 3) then
+              let desig := match o_reqip o with Some a => a | None => pi_src i end in
+              negb (opt_eqb bound (Some desig)) || foreign_answer r (d_chaddr m) desig
+            else true) &&
            (po_t p - r_t r <=? 50000000 + (Z.of_nat (length (dyn_addresses (c_db c))) + 2) * arp_tries * arp_timeout)%Z
          | None => false end) (r_outs r)
      | None => true end) && c08_scan c (if r_has_snap r then r_snap r else prev) rest
